@@ -46,7 +46,8 @@ func genPool(rng *rand.Rand, plen int) string {
 	sft := uint(128 - plen)
 	base.Rsh(base, sft)
 	base.Lsh(base, sft)
-	if base.Sign() == 0 {
+	if b := ipOfBig(base); base.Sign() == 0 || b.To4() != nil {
+		// (a base that reads as an IPv4-mapped address would be written, and parsed back, as an IPv4 pool)
 		base.SetString("20010db8000000000000000000000000", 16)
 		base.Rsh(base, sft)
 		base.Lsh(base, sft)
@@ -95,6 +96,7 @@ type pdRun struct {
 	trace  []string
 	nmsgs  map[int]int
 	lastTyp map[int]byte
+	noManyHints bool
 	sawRenew bool
 }
 
@@ -202,7 +204,7 @@ func (r *pdRun) buildMsg(ci int, retransmit []byte) ([]byte, string) {
 		nh := []int{0, 0, 0, 1, 1, 1, 2, 3}[r.rng.Intn(8)]
 		var sub []pkt.Opt6
 		var hd []string
-		if own := keysOf(r.m.Known[client]); len(own) > 0 && r.rng.Intn(25) == 0 {
+		if own := keysOf(r.m.Known[client]); len(own) > 0 && !r.noManyHints && r.rng.Intn(25) == 0 {
 			// a renewal that lists what the client holds many times over (60-140 IAPrefix options)
 			n := 60 + r.rng.Intn(81)
 			for h := 0; h < n; h++ {
@@ -481,3 +483,5 @@ func siblingDUID(rng *rand.Rand, d []byte) []byte {
 	}
 	return s
 }
+
+func ipOfBig(v *big.Int) net.IP { return engarith.IPOf(v) }
